@@ -72,11 +72,19 @@ LayoutOk(c) ==
       /\ \A k \in grp : ops[k].off < ra
       /\ last < Len(ops) => \/ ops[last + 1].off >= ra
                             \/ (ops[last + 1].sm.kind = "macro" /\ ops[last + 1].sm.ra <= ra)
+\* A loop keyword is the position of the ONE jump the loop itself needs (forever: back to the start; while / for: to the test).  The jumps
+\* of `continue;`, `break_loop;` ... are statements of their own and are mapped to where they are written - a second Jump mapped to
+\* the position of a loop keyword is such a statement with the wrong entry.
+LoopNodes(c) == {n \in 1..Len(N(Src(c))) : N(Src(c))[n].k \in {"forever", "while", "for"} /\ Par(Src(c))[n].rk # "m"}
+JumpsMappedAt(c, line, col) == {p \in AllPos(R(c)) : LET o == R(c)[p[1]][p[2]] IN
+                                  o.op = "Jump" /\ o.sm.kind = "direct" /\ o.sm.line = line /\ o.sm.col = col}
+LoopJumpsOk(c) == \A n \in LoopNodes(c) : Cardinality(JumpsMappedAt(c, N(Src(c))[n].line, N(Src(c))[n].col)) <= 1
 IncludedOk(c) == {x \in {R(c)[p[1]][p[2]].sm.file : p \in {q \in AllPos(R(c)) : R(c)[q[1]][q[2]].sm.kind = "macro"}} : x # "<none>"}
                    = {Src(c).includedReported[i] : i \in 1..Len(Src(c).includedReported)}
 MarksOk(c) == /\ \A i \in 1..Len(Src(c).emittedMarks) : \E j \in 1..Len(Src(c).recordedMarks) : Src(c).recordedMarks[j].val = Src(c).emittedMarks[i]
               /\ Src(c).directMarksExact => Src(c).recordedDirect = Src(c).expectedDirect
 Static(c) == IF ~EveryOpMapped(c) THEN "unmapped-op" ELSE IF ~LayoutOk(c) THEN "return-address-layout"
+             ELSE IF ~LoopJumpsOk(c) THEN "loop-keyword-jumps"
              ELSE IF ~IncludedOk(c) THEN "included-files" ELSE IF ~MarksOk(c) THEN "position-marks" ELSE "done"
 
 Init ==
@@ -111,7 +119,7 @@ Sync == /\ st = "run" /\ SKind(Src(cid), s) # "tau" /\ BKindOf(BOp(cid, b)) # "j
 Next == TauS \/ TauB \/ Sync
 Spec == Init /\ [][Next]_vars
 
-Bad == {"map-mismatch", "unmapped-op", "return-address-layout", "included-files", "position-marks"}
+Bad == {"map-mismatch", "unmapped-op", "return-address-layout", "included-files", "position-marks", "loop-keyword-jumps"}
 MapAgrees == st \notin Bad
 Report == st \in Bad =>
   PrintT(<<"VIOL", cid, st, rt, s.pt.t, s.pt.n, b[1], b[2], IF b[1] > 0 THEN BOp(cid, b).off ELSE -1>>)
